@@ -46,20 +46,50 @@ theorem count_values : ∀ (es : List Item), SimpleValues es → ∀ (n : Nat) (
   | .rpc _ _ _ _ _ _ :: _, h, _, _, _, _, _, _ => by simp [SimpleValues] at h
   | .block _ _ _ _ _ _ _ :: _, h, _, _, _, _, _, _ => by simp [SimpleValues] at h
 
+theorem memberToks_ne (n : Nat) (f : FieldD) (h : SimpleField f ∨ OptField f) (s : Nat) :
+    1 ≤ (itemToks n (.field f) s).length := by
+  rcases h with h | h
+  · have := lineToks_field_ne n f h s
+    have hpe : f.popts.isEmpty = true := by simp [Leaf.popts (Or.inl h)]
+    simp only [itemToks, hpe, if_true, leafLine, h.1]
+    exact this
+  · have hpe : f.popts.isEmpty = false := by simpa using h.nonempty
+    obtain ⟨w, raws, e, c, hw, hty, htoks, _, _⟩ := h.read
+    obtain ⟨t, tl, hhead, _⟩ := headToks_start f w h.lab hw 0
+    simp only [itemToks, hpe, Bool.false_eq_true, if_false, sh_length, htoks, hhead, List.length_append,
+      List.length_cons]
+    omega
+
 theorem count_members : ∀ (es : List Item), SimpleMembers es → ∀ (n : Nat) (first : Bool) (le0 lt L : Nat) (g : Bool),
     es.length ≤ (toksOf (elemsCmds n es first le0 lt) g L).length ∧ needAll es = 0
   | [], _, _, _, _, _, _, _ => by simp [needAll]
   | .field f :: r, h, n, first, le0, lt, L, g => by
     simp only [SimpleMembers] at h
-    rw [toksOf_elems_cons n (.field f) r first le0 lt g L (Or.inl h.1.1)]
+    rw [toksOf_elems_cons n (.field f) r first le0 lt g L (member_plain h.1.1)]
     have ih := count_members r h.2 n false (Item.field f).loc.endLine (Item.field f).typeOrder
       (rdItem (.field f) (startLine (g || gapBefore first le0 lt (.field f)) L)).2 (Item.field f).gapEnder
-    have h1 := lineToks_field_ne n f h.1.1 (startLine (g || gapBefore first le0 lt (.field f)) L)
-    have hpe : f.popts.isEmpty = true := by simp [Leaf.popts (Or.inl h.1.1)]
-    simp only [itemToks, hpe, if_true, leafLine, h.1.1.1, List.length_append, List.length_cons, needAll, need1] at ih h1 ⊢
+    have h1 := memberToks_ne n f h.1.1 (startLine (g || gapBefore first le0 lt (.field f)) L)
+    simp only [List.length_append, List.length_cons, needAll, need1] at ih h1 ⊢
     omega
   | .rpc _ _ _ _ _ _ :: _, h, _, _, _, _, _, _ => by simp [SimpleMembers] at h
   | .block _ _ _ _ _ _ _ :: _, h, _, _, _, _, _, _ => by simp [SimpleMembers] at h
+
+theorem length_le_flatten {α} : ∀ (l : List (List α)), (∀ c ∈ l, c ≠ []) → l.length ≤ l.flatten.length
+  | [], _ => by simp
+  | c :: r, h => by
+    have hc := h c (by simp)
+    have ih := length_le_flatten r (fun x hx => h x (by simp [hx]))
+    have : 1 ≤ c.length := by cases c with | nil => exact absurd rfl hc | cons _ _ => simp
+    simp only [List.length_cons, List.flatten_cons, List.length_append]
+    omega
+
+theorem count_opts (os : List SOpt) (ho : BlockOpts os) : (optChunks os).length ≤ (optToks0 os).length := by
+  rw [← ho.whole]
+  apply length_le_flatten
+  intro c hc he
+  obtain ⟨r, hr⟩ := ho.chunks c hc
+  rw [he] at hr
+  simp [Grammar.optionStmt] at hr
 
 mutual
 theorem count_item : ∀ (e : Item), SimpleItem e → ∀ (n s : Nat), 1 + need1 e ≤ (itemToks n e s).length
@@ -89,21 +119,22 @@ theorem count_item : ∀ (e : Item), SimpleItem e → ∀ (n s : Nat), 1 + need1
       · exact isIdent_message
       · exact isIdent_enum
       · exact isIdent_oneof
+    have hco := count_opts opts ho
     simp only [itemToks, need1]
     split
     · rename_i he
-      have : kids = [] := by simpa using he
-      subst this
+      simp only [Bool.and_eq_true, List.isEmpty_iff] at he
+      obtain ⟨rfl, rfl⟩ := he
       rw [lineToks_empty n kw name s hkwI hname]
-      simp [needAll]
+      simp [needAll, optChunks, optToks0_nil, splitOpt]
     · rw [lineToks_open n kw name s hkwI hname, lineToks_close]
-      simp only [List.length_append, List.length_cons, List.length_nil]
-      rcases hcase with ⟨_, _, hk⟩ | ⟨_, _, hk⟩ | ⟨_, _, _, hk⟩
-      · have := count_kids kids hk (n + 1) true 0 0 (s + 1) false
+      simp only [List.length_append, List.length_cons, List.length_nil, sh_length]
+      rcases hcase with ⟨_, _, hk⟩ | ⟨_, _, hk⟩ | ⟨_, _, _, hk, _⟩
+      · have := count_kids kids hk (n + 1) true 0 0 (s + 1 + optSpan opts) (!opts.isEmpty)
         omega
-      · have := count_values kids hk (n + 1) true 0 0 (s + 1) false
+      · have := count_values kids hk (n + 1) true 0 0 (s + 1 + optSpan opts) (!opts.isEmpty)
         omega
-      · have := count_members kids hk (n + 1) true 0 0 (s + 1) false
+      · have := count_members kids hk (n + 1) true 0 0 (s + 1 + optSpan opts) (!opts.isEmpty)
         omega
 theorem count_kids : ∀ (es : List Item), SimpleKids es → ∀ (n : Nat) (first : Bool) (le0 lt L : Nat) (g : Bool),
     es.length + needAll es ≤ (toksOf (elemsCmds n es first le0 lt) g L).length
@@ -138,8 +169,8 @@ theorem count_rpcs : ∀ (es : List Item), SimpleRpcs es → ∀ (n : Nat) (firs
 theorem count_service : ∀ (e : Item), SimpleService e → ∀ (n s : Nat), 1 + need1 e ≤ (itemToks n e s).length
   | .block kw t l i name opts kids, h, n, s => by
     obtain ⟨hl, ho, hname, hkw, _, hk⟩ := h
-    subst hkw
-    simp only [itemToks, need1]
+    subst hkw ho
+    simp only [itemToks_block_nil, need1_block_nil]
     split
     · rename_i he
       have : kids = [] := by simpa using he
@@ -363,7 +394,7 @@ theorem plain_quiet : ∀ (e : Item), Plain e → e.quiet
   | .block _ _ l _ _ os ks, h => by
     simp only [Plain] at h
     simp only [Item.quiet]
-    exact ⟨h.1, by rw [h.2.1]; simp, plainList_quiet ks h.2.2⟩
+    exact ⟨h.1, h.2.1.unl, plainList_quiet ks h.2.2⟩
 theorem plainList_quiet : ∀ (es : List Item), PlainList es → quietList es
   | [], _ => trivial
   | e :: r, h => by
